@@ -264,27 +264,44 @@ def _kernel_info(b):
 # HASH
 # --------------------------------------------------------------------------------------------
 LEN_LEAVES = ("length",)
-LEN_CALLS = ("len", "int_len", "capacity_from_bit_len", "capacity_from_byte_len", "capacity")
+LEN_CALLS = ("len", "int_len", "capacity")   # applied to a vector; capacity_from_*_len are pure functions of their argument
 DATA_CALLS = ("get", "get_int", "leading_zeros", "leading_ones", "trailing_zeros", "trailing_ones",
               "significant_bits", "is_zero", "to_vec", "iter")
 
 
 def _taint(e):
-    """'data' if the expression depends on the bits, 'len' if it depends only on the length, 'const' otherwise"""
-    has_len = has_data = False
-    for x in walk(e):
+    """'len' if the expression mentions the length anywhere outside the length-cancelling form
+    `len - leading_zeros(x)` (= significant bits): such a value differs between equal vectors of different
+    lengths. Otherwise 'data' if it depends on the bits, else 'const'."""
+    state = {"len": False, "data": False}
+
+    def is_len_leaf(x):
+        return (x[0] == "field" and x[2] in LEN_LEAVES) or (x[0] == "call" and x[1] in LEN_CALLS and x[3])
+
+    def visit(x):
         if not isinstance(x, tuple) or not x:
-            continue
+            return
+        if x[0] == "bin" and x[1] == "Sub" and isinstance(x[2], tuple) and is_len_leaf(x[2]) \
+                and isinstance(x[3], tuple) and x[3][0] == "call" and x[3][1] == "leading_zeros":
+            state["data"] = True
+            return  # len - leading_zeros(x): the length cancels out
         if x[0] == "field" and x[2] == "data":
-            has_data = True
-        if x[0] == "field" and x[2] in LEN_LEAVES:
-            has_len = True
-        if x[0] == "call":
-            if x[1] in DATA_CALLS:
-                has_data = True
-            elif x[1] in LEN_CALLS and x[3]:
-                has_len = True
-    return "data" if has_data else ("len" if has_len else "const")
+            state["data"] = True
+        if x[0] == "call" and x[1] in DATA_CALLS:
+            state["data"] = True
+            return  # value-level accessors (get_int masks by the length, significant_bits is value-only by contract)
+        if is_len_leaf(x):
+            state["len"] = True
+        for y in x[1:]:
+            if isinstance(y, tuple):
+                if y and isinstance(y[0], str):
+                    visit(y)
+                else:
+                    for z in y:
+                        visit(z)
+
+    visit(e)
+    return "len" if state["len"] else ("data" if state["data"] else "const")
 
 
 def hash_taint(crate):
@@ -306,7 +323,7 @@ def hash_taint(crate):
             key = "%s|sink %s(%s)" % (b.key, fn["name"], show(val)[:60])
             if tv == "len":
                 res.append((b, key, "violation",
-                            "`%s` reaches the hasher but depends only on the length, which == ignores "
+                            "`%s` reaches the hasher but depends on the length, which == ignores "
                             "(equal values of different lengths hash differently)" % show(val)))
             else:
                 res.append((b, key, "pass", "hashed value `%s` is %s-dependent" % (show(val)[:60], tv)))
@@ -322,7 +339,8 @@ def hash_taint(crate):
                                 lkey = "%s|loop bound %s" % (b.key, show(src)[:70])
                                 if tb == "len":
                                     res.append((b, lkey, "violation",
-                                                "the number of hashed words `%s` depends only on the length" % show(src)))
+                                                "the number of hashed words `%s` depends on the length (outside `len - leading_zeros`), "
+                                                "which == ignores" % show(src)))
                                 else:
                                     res.append((b, lkey, "pass", "number of hashed words is %s-dependent" % tb))
         if b.self_family == "Bv":
